@@ -9,7 +9,7 @@ from ..core import short_exc
 
 PROP = "C03"
 LEVEL = "exploration"
-N = {"quick": 1500, "thorough": 40000}
+N = {"quick": 6000, "thorough": 120000}
 RULE = ("seeded history of 2-5 solve() / __call__ calls on ONE ORToolsSolver object over different tiny non-flexible "
         "instances (<= 9 operations, zero durations, recirculation, irregular jobs, unused machine ids), with "
         "max_time_in_seconds changed between calls (None / generous / 1e-9) and a deterministic CP-SAT time budget "
